@@ -87,3 +87,21 @@ Print Assumptions C08_status_v0_refuted.
 Theorem C08_write_stacked_v0_refuted : exists a, view_write_stacked_with true a = Panic.
 Proof. exact view_write_stacked_v0_refuted. Qed.
 Print Assumptions C08_write_stacked_v0_refuted.
+
+(* TIE TO THE SOURCE TABLES.  gen/ProtoTables.v is regenerated from device/src/u3v/protocol/{ack,event}.rs on every
+   run (tools/translate_proto.py: the match arms of Status::parse, parse_gencp_status, parse_usb_status,
+   ScdKind::parse, the magic numbers); for EVERY 16-bit or larger code the model's decision is the source table's. *)
+From Cam Require Import ProtoTables P_Tables.
+
+Theorem C08_status_table_from_source : forall code, status_kind code = src_status_kind code.
+Proof. exact status_kind_src. Qed.
+Print Assumptions C08_status_table_from_source.
+
+Theorem C08_ack_kind_from_source : forall id, scd_kind_of id = table_fn src_ack_kind 0 id.
+Proof. exact scd_kind_src. Qed.
+Print Assumptions C08_ack_kind_from_source.
+
+Theorem C08_magic_from_source :
+  Ack.ACK_MAGIC = src_ack_magic /\ EVENT_MAGIC = src_event_magic /\ EVENT_COMMAND_ID = src_event_command_id.
+Proof. exact (conj ack_magic_src event_consts_src). Qed.
+Print Assumptions C08_magic_from_source.
